@@ -1484,14 +1484,15 @@ func main() {
 		r.names = append(r.names, "<unmatched>")
 		emitBd(c, "bd-loaded-dict", r)
 	}
-	// ... and for a file that exists only on another head: a history without an ownership table
+	// ... and hand-made results with a file history that has no ownership table (BurndownAnalysis.Finalize
+	// made such results for a file living on another head only, until the repair 909b314)
 	for i := c.Count(300, 5000); i > 0 && !skipFindings; i-- {
 		r := g.burndown(false)
 		if len(r.own) > 0 {
 			k := c.Rng.Intn(len(r.own))
 			r.own = append(r.own[:k:k], r.own[k+1:]...)
 		}
-		emitBd(c, "bd-other-head", r)
+		emitBd(c, "bd-no-ownership", r)
 	}
 	for i := c.Count(10000, 300000); i > 0; i-- {
 		emitDv(c, "dv", g.devs(false))
